@@ -5,10 +5,12 @@ go 1.23.4
 require (
 	github.com/containerd/nri v0.6.0
 	github.com/containers/nri-plugins v0.0.0
+	github.com/containers/nri-plugins/pkg/topology v0.0.0
 	k8s.io/api v0.31.2
 	k8s.io/apimachinery v0.31.2
 	k8s.io/client-go v0.31.2
 	k8s.io/klog/v2 v2.130.1
+	k8s.io/kubelet v0.31.2
 )
 
 require (
@@ -17,7 +19,6 @@ require (
 	github.com/cespare/xxhash/v2 v2.3.0 // indirect
 	github.com/containerd/otelttrpc v0.0.0-20240305015340-ea5083fda723 // indirect
 	github.com/containerd/ttrpc v1.2.3-0.20231030150553-baadfd8e7956 // indirect
-	github.com/containers/nri-plugins/pkg/topology v0.0.0 // indirect
 	github.com/davecgh/go-spew v1.1.2-0.20180830191138-d8f796af33cc // indirect
 	github.com/emicklei/go-restful/v3 v3.11.0 // indirect
 	github.com/fsnotify/fsnotify v1.6.0 // indirect
@@ -74,7 +75,6 @@ require (
 	gopkg.in/yaml.v3 v3.0.1 // indirect
 	k8s.io/cri-api v0.31.2 // indirect
 	k8s.io/kube-openapi v0.0.0-20240228011516-70dd3763d340 // indirect
-	k8s.io/kubelet v0.31.2 // indirect
 	k8s.io/utils v0.0.0-20240711033017-18e509b52bc8 // indirect
 	sigs.k8s.io/controller-runtime v0.16.2 // indirect
 	sigs.k8s.io/json v0.0.0-20221116044647-bc3834ca7abd // indirect
